@@ -103,14 +103,15 @@ def _truth(case: dict[str, Any], code: Any, codes: list[Any]) -> dict[str, Any]:
     return {"windows": windows}
 
 
-def _child(case: dict[str, Any], want: str, scratch: str) -> dict[str, Any]:  # noqa: C901, PLR0912, PLR0915
+def _child(case: dict[str, Any], want: str, scratch: str, short_lived: bool = False) -> dict[str, Any]:  # noqa: C901, PLR0912, PLR0915
     import pynguin.configuration as config
     from pynguin.instrumentation.machinery import install_import_hook
     from pynguin.instrumentation.tracer import SubjectProperties
 
-    import gc
+    if short_lived:
+        import gc
 
-    gc.disable()  # short-lived child: a collection would only touch (and thereby copy) the parent's pages
+        gc.disable()  # forked one-case child: a collection would only touch (and thereby copy) the parent's pages
     res: dict[str, Any] = {"failures": [], "labels": [], "excluded": 0, "nontrivial": False, "windows": 0,
                            "inconclusive": None}
     model = case["module"]
@@ -486,13 +487,10 @@ def evaluate_case(case: dict[str, Any], want: str) -> Outcome:
     _preload()
     scratch = os.environ.get("VF_SCRATCH_DIR") or os.environ.get("VERIF_SCRATCH") or tempfile.gettempdir()
     os.makedirs(scratch, exist_ok=True)
-    kind, val = forked(lambda: _child(case, want, scratch), CHILD_TIMEOUT)
-    feats = pygen.features_of(case["module"])
-    out.labels.extend("has:" + f for f in feats)
-    out.labels.append("metrics:" + "+".join(sorted(case["metrics"])))
+    kind, val = forked(lambda: _child(case, want, scratch, short_lived=True), CHILD_TIMEOUT)
+    _case_labels(out, case)
     if kind == "signal":
-        out.fail("interpreter-crash|signal|metrics=" + "+".join(sorted(case["metrics"])),
-                 f"child killed by signal {val}\n{pygen.render(case['module'])[:1500]}")
+        _crash(out, case, val)
         return out
     if kind == "timeout":
         out.inconclusive = "child-timeout"
@@ -505,6 +503,21 @@ def evaluate_case(case: dict[str, Any], want: str) -> Outcome:
             out.fail("unexpected-exception|" + val["sig"], val["detail"])
             return out
         raise RuntimeError("harness error in child: " + val["detail"])
+    _fill(out, case, val)
+    return out
+
+
+def _case_labels(out: Outcome, case: dict[str, Any]) -> None:
+    out.labels.extend("has:" + f for f in pygen.features_of(case["module"]))
+    out.labels.append("metrics:" + "+".join(sorted(case["metrics"])))
+
+
+def _crash(out: Outcome, case: dict[str, Any], signo: Any) -> None:
+    out.fail("interpreter-crash|signal|metrics=" + "+".join(sorted(case["metrics"])),
+             f"process killed by signal {signo} while instrumenting/executing\n{pygen.render(case['module'])[:1500]}")
+
+
+def _fill(out: Outcome, case: dict[str, Any], val: dict[str, Any]) -> None:
     for sig, detail in val["failures"]:
         out.fail(sig, detail)
     out.labels.extend(val["labels"])
@@ -514,4 +527,111 @@ def evaluate_case(case: dict[str, Any], want: str) -> Outcome:
     if val["inconclusive"]:
         out.inconclusive = val["inconclusive"]
     out.sample = {"source": pygen.render(case["module"]), "calls": case["calls"][:2], "metrics": case["metrics"]}
-    return out
+
+
+# ------------------------------------------------------------------------------------------ shard runner
+# Forking once per example costs 10-20 ms on an idle machine but seconds on a busy one.  The shard therefore runs the whole
+# Hypothesis campaign inside ONE forked worker; inside the worker every case is evaluated in-process by ``_child`` (which
+# builds fresh SubjectProperties/tracer per case and removes module, import hook, sys.path entry and monitoring tool in
+# ``finally`` -- nothing is shared between examples).  Before each case the worker writes the case to a marker file.  If the
+# worker is killed by a signal (a wrongly rewritten code object can crash CPython) or stops making progress, the supervisor
+# takes the marked case as an ``interpreter-crash`` / ``case-timeout`` and starts a new worker, which replays the same seeded
+# campaign and records that verdict when it meets the case again instead of executing it.
+CASE_TIMEOUT = 120.0
+MAX_RESTARTS = 40  # every restart replays the seeded campaign (0.2 s per case); shrinking only in the first attempts
+SHRINK_ATTEMPTS = 6
+
+
+def run_shard(ctx: Any, strategy: Any, want: str) -> None:
+    import json
+    import signal
+    import time
+
+    from vf.core import jdump
+    from vf.hyp import run_cases
+
+    _preload()
+    per = max(1, int(ctx.params["examples"]) // ctx.nshards)
+    marker = os.path.join(ctx.scratch, "current_case.json")
+    result_path = os.path.join(ctx.scratch, "worker_result.json")
+    verdicts: dict[str, tuple[str, Any]] = {}  # case hash -> ("signal", signo) | ("timeout", None)
+
+    def evaluate(case: dict[str, Any]) -> Outcome:
+        out = Outcome()
+        _case_labels(out, case)
+        verdict = verdicts.get(h12(case))
+        if verdict is not None:
+            if verdict[0] == "signal":
+                _crash(out, case, verdict[1])
+            else:
+                out.inconclusive = "case-timeout"
+            return out
+        with open(marker, "w") as fh:
+            fh.write(jdump(case))
+        _fill(out, case, _child(case, want, ctx.scratch))
+        return out
+
+    for attempt in range(MAX_RESTARTS + 1):
+        for path in (marker, result_path):
+            if os.path.exists(path):
+                os.remove(path)
+        pid = os.fork()
+        if pid == 0:  # worker
+            code = 1
+            try:
+                run_cases(ctx, strategy, evaluate, per, shrink=attempt < SHRINK_ATTEMPTS)
+                with open(result_path, "w") as fh:
+                    json.dump(ctx.result.to_json(), fh, default=repr)
+                code = 0
+            except BaseException:  # noqa: BLE001
+                import traceback
+
+                traceback.print_exc()
+                sys.stdout.flush()
+                sys.stderr.flush()
+            finally:
+                os._exit(code)
+        status = None
+        while True:
+            done, st_ = os.waitpid(pid, os.WNOHANG)
+            if done:
+                status = st_
+                break
+            time.sleep(0.2)
+            try:
+                idle = time.time() - os.path.getmtime(marker)
+            except OSError:
+                idle = 0.0
+            if idle > CASE_TIMEOUT:
+                os.kill(pid, signal.SIGKILL)
+                os.waitpid(pid, 0)
+                break
+        stuck = None
+        if os.path.exists(marker):
+            with open(marker) as fh:
+                stuck = json.load(fh)
+        if status is None:  # no progress on one case
+            if stuck is None:
+                raise RuntimeError("worker made no progress before its first case")
+            verdicts[h12(stuck)] = ("timeout", None)
+            continue
+        if os.WIFSIGNALED(status):
+            if stuck is None:
+                raise RuntimeError(f"worker killed by signal {os.WTERMSIG(status)} before its first case")
+            verdicts[h12(stuck)] = ("signal", os.WTERMSIG(status))
+            continue
+        if os.WEXITSTATUS(status) != 0 or not os.path.exists(result_path):
+            raise RuntimeError(f"worker failed with exit status {os.WEXITSTATUS(status)} (traceback above)")
+        with open(result_path) as fh:
+            data = json.load(fh)
+        res = ctx.result
+        res.evaluations, res.cases, res.excluded = data["evaluations"], data["cases"], data["excluded"]
+        res.nontrivial = set(data["nontrivial"])
+        res.labels.update(data["labels"])
+        res.samples = data["samples"]
+        res.failures = data["failures"]
+        res.inconclusive.update(data["inconclusive"])
+        res.notes.update(data["notes"])
+        res.notes["worker_restarts"] = attempt
+        return
+    raise RuntimeError("worker restarted too often")
